@@ -435,11 +435,15 @@ Definition final_oci (h : list op) : ospec := oci_abs (fst (run oci_step oci_ini
 (* ---------- file store (content/file): a virtual CAS over named files ----------
    Annotation-set ids are numbered so that a / 8 is the id of the
    org.opencontainers.image.title annotation (0 = no title).  A path is identified
-   with the name it was resolved from (names are distinct clean relative paths;
-   path aliasing and traversal are C11's).  Not modelled: pushDir/unpack, Add,
+   with the name it was resolved from, except for one deliberate alias ([path_of]);
+   traversal and symlinks are C11's.  Not modelled: pushDir/unpack, Add,
    restoreDuplicates (successor descriptors carry no titles), Close, the fallback
    size limit, ForceCAS/SkipUnpack/PreservePermissions. *)
 Definition d_name (d : desc) : N := N.div (d_ann d) 8.
+
+(* resolveWritePath: name 5 of the universe is "./" ++ name 1 -- a second name for the
+   same path; every other name is its own path *)
+Definition path_of (n : N) : N := if n =? 5 then 1 else n.
 
 Record file_store := mkFile {
   f_names : list N;                (* nameToStatus entries whose exists flag is set *)
@@ -475,19 +479,25 @@ Inductive ferr := FDuplicateName | FOverwrite.
 
 Inductive fout := FO (o : out) | FE (e : ferr).
 
+(* graph.Index(ctx, s, expected) after a successful store: content.Successors fetches the
+   content through the store itself, for manifest media types only *)
+Definition file_index_after (d : desc) (s1 : file_store) : file_store * fout :=
+  if is_manifest (d_mt d) then
+    match file_fetch d s1 with
+    | None => (s1, FO (OErr ENotFound))
+    | Some c1 => (mkFile (f_names s1) (f_d2p s1) (f_disk s1) (f_cas s1) (f_res s1)
+                         (g_index d (succ_of (gk d) c1) (f_graph s1)), FO OOk)
+    end
+  else (mkFile (f_names s1) (f_d2p s1) (f_disk s1) (f_cas s1) (f_res s1)
+               (g_index d [] (f_graph s1)), FO OOk).
+
 (* [fixed]: pushFile removes the file it created when the content does not verify
    (the fix: commit on the repository branch); [fixed = false] is the code as found *)
 Definition file_step (fixed ignore_noname disable_overwrite : bool)
            (s : file_store) (o : op) : file_store * fout :=
   match o with
   | Push d c =>
-      let index_after (s1 : file_store) :=
-        (* graph.Index(ctx, s, expected): content.Successors fetches through the store *)
-        match file_fetch d s1 with
-        | None => (s1, FO (OErr ENotFound))
-        | Some c1 => (mkFile (f_names s1) (f_d2p s1) (f_disk s1) (f_cas s1) (f_res s1)
-                             (g_index d (succ_of (gk d) c1) (f_graph s1)), FO OOk)
-        end in
+      let index_after := file_index_after d in
       if d_name d =? 0 then
         if ignore_noname then (s, FO OOk)
         else match get gkey_eqb (gk d) (f_cas s) with
@@ -501,13 +511,14 @@ Definition file_step (fixed ignore_noname disable_overwrite : bool)
                  else (s, FO (OErr EMismatch))
              end
       else if mem N.eqb (d_name d) (f_names s) then (s, FE FDuplicateName)
-      else if disable_overwrite && is_some (get N.eqb (d_name d) (f_disk s)) then (s, FE FOverwrite)
+      else if disable_overwrite && is_some (get N.eqb (path_of (d_name d)) (f_disk s)) then (s, FE FOverwrite)
       else if verify d c
-      then index_after (mkFile (d_name d :: f_names s) (put N.eqb (d_dig d) (d_name d) (f_d2p s))
-                               (put N.eqb (d_name d) c (f_disk s)) (f_cas s) (f_res s) (f_graph s))
+      then index_after (mkFile (d_name d :: f_names s) (put N.eqb (d_dig d) (path_of (d_name d)) (f_d2p s))
+                               (put N.eqb (path_of (d_name d)) c (f_disk s)) (f_cas s) (f_res s) (f_graph s))
       else (* os.Create truncated/created the file, the copy failed verification *)
         (mkFile (f_names s) (f_d2p s)
-                (if fixed then del N.eqb (d_name d) (f_disk s) else put N.eqb (d_name d) c (f_disk s))
+                (if fixed then del N.eqb (path_of (d_name d)) (f_disk s)
+                 else put N.eqb (path_of (d_name d)) c (f_disk s))
                 (f_cas s) (f_res s) (f_graph s), FO (OErr EMismatch))
   | Fetch d =>
       match file_fetch d s with
